@@ -184,9 +184,11 @@ def _is_new_function(project, g) -> bool:
     return r is not None and g.qualname not in r and g.parent is None and transparent(g)
 
 
-def path_summaries(f: FuncInfo, limit: int = 512, body: Optional[List[ast.stmt]] = None, env0: Optional[Dict[str, ast.expr]] = None, project=None, depth: int = 0) -> Optional[List[Path]]:
+def path_summaries(f: FuncInfo, limit: int = 512, body: Optional[List[ast.stmt]] = None, env0: Optional[Dict[str, ast.expr]] = None, project=None, depth: int = 0, unfold=frozenset()) -> Optional[List[Path]]:
     """project: when given, a call to a function that is NEW with respect to the reference snapshot (an extracted helper), standing as the whole test of an `if`, the whole
-    right-hand side of an assignment or the whole returned value, is looked into: each of its return paths continues the caller's path with the helper's conditions."""
+    right-hand side of an assignment or the whole returned value, is looked into: each of its return paths continues the caller's path with the helper's conditions.
+    unfold: keys of (reference) functions to look into in the same way - thin wrappers whose definition a rule wants to see through, so that calling the wrapper and
+    writing out its body give one form."""
     out: List[Path] = []
     over = [False]
 
@@ -241,7 +243,7 @@ def path_summaries(f: FuncInfo, limit: int = 512, body: Optional[List[ast.stmt]]
             tg = project.resolve_call(e, f)
         except Exception:
             return None
-        if len(tg) != 1 or tg[0] is f or not _is_new_function(project, tg[0]) or tg[0].vararg or tg[0].kwarg:
+        if len(tg) != 1 or tg[0] is f or not (_is_new_function(project, tg[0]) or tg[0].key in unfold) or tg[0].vararg or tg[0].kwarg:
             return None
         g = tg[0]
         if any(isinstance(a, ast.Starred) for a in e.args) or any(k.arg is None for k in e.keywords):
@@ -259,7 +261,7 @@ def path_summaries(f: FuncInfo, limit: int = 512, body: Optional[List[ast.stmt]]
             if not isinstance(e.func, ast.Attribute):
                 return None
             e0[g.params[0]] = sub(e.func.value, env)
-        ps = path_summaries(g, limit=64, env0=e0, project=project, depth=depth + 1)
+        ps = path_summaries(g, limit=64, env0=e0, project=project, depth=depth + 1, unfold=unfold)
         if ps is None or any(q.kind != "return" for q in ps):
             return None
         return [(q.conds, q.value) for q in ps]
